@@ -86,6 +86,19 @@ def ob_point_map(which, mesh, space_spec):
 
 
 def ob_fmm_transform(which, mesh, space_spec):
+    try:
+        return _ob_fmm_transform(which, mesh, space_spec)
+    except S.Undecided:
+        raise
+    except Exception as ex:  # noqa: the real code left the part of numpy that runs on proxy values: decide on floats
+        rp = replay_fmm_transform(which)
+        if rp["violates"]:
+            return violated("%s transformation: symbolic execution not possible (%s: %s); the native contract fails: %s" % (which, type(ex).__name__, str(ex)[:100], rp),
+                            signature="fmm-transform/native/" + which, replay={"callable": "checks.c17:replay_fmm_transform", "kwargs": {"which": which}, "confirmed": True, "result": rp})
+        return undecided("%s transformation cannot be executed on proxy values (%s: %s); the native contract holds (%.1e)" % (which, type(ex).__name__, str(ex)[:100], rp["relative_error"]))
+
+
+def _ob_fmm_transform(which, mesh, space_spec):
     """post: the sparse transformation data the FMM evaluators are built from (fmm_assembler.compute_p1_curl_transformation_impl /
     compute_rwg_basis_transform_impl / compute_rwg_div_transform_impl), executed on a real small grid with symbolic vertices and quadrature rule, are exactly
     { (value, nq*E + q, 3*pos(E) + f) : E in support, f < 3, q < nq } with value = nm_E (n_E x grad lambda_f) w_q |J_E|  (surface curl of the hat functions),
